@@ -227,7 +227,9 @@ var c20Peers = map[byte]*cluster.Member{
 
 // events of the C20 alphabet: hX handshake from X; m<list> member list; uX unreachable report for
 // X's address (uZ: an address that never was a member); t: the member-ping ticker fires
-var c20Events = []string{"hB", "hC", "hD", "mB", "mCD", "mABC", "mBB", "uB", "uC", "uD", "uZ", "t"}
+// "wBC": B and C are reported unreachable back to back (both reports are under way before the provider has
+// handled the first)
+var c20Events = []string{"hB", "hC", "hD", "mB", "mCD", "mABC", "mBB", "uB", "uC", "uD", "uZ", "t", "wBC"}
 
 func c20Member(id byte) *cluster.Member {
 	u := c20Peers[id]
@@ -324,6 +326,16 @@ func engProvider(depth int) vsched.Instance {
 					delete(set, string(ev[1]))
 				}
 				e.BroadcastEvent(actor.RemoteUnreachableEvent{ListenAddr: addr})
+			case 'w':
+				for i := 1; i < len(ev); i++ {
+					if set[string(ev[i])] {
+						mustReport = true
+					}
+					delete(set, string(ev[i]))
+				}
+				for i := 1; i < len(ev); i++ {
+					e.BroadcastEvent(actor.RemoteUnreachableEvent{ListenAddr: c20Peers[ev[i]].Host})
+				}
 			case 't':
 				vsched.Advance(2 * time.Second)
 			}
@@ -335,7 +347,10 @@ func engProvider(depth int) vsched.Instance {
 			if mustReport && len(reports) == 0 {
 				bad = append(bad, V("provider/agent-not-told", "history %v: the agent received no member list, want %s", hist, want))
 			}
-			for _, r := range reports {
+			for ri, r := range reports {
+				if ev[0] == 'w' && ri < len(reports)-1 {
+					continue // two removals: the report in between names the set in between; the last one counts
+				}
 				if memberIDs(r) != want {
 					bad = append(bad, V("provider/agent-told-wrong-list", "history %v: agent was told %s, want %s (before: %s)", hist, memberIDs(r), want, before))
 					break
@@ -403,13 +418,13 @@ type funcRecv func(*actor.Context)
 func (f funcRecv) Receive(c *actor.Context) { f(c) }
 
 func init() {
-	Register(&Job{Name: "C20/provider/event-histories-3", Prop: "C20", Bound: 0, BoundT: 1, Budget: 50, BudgetT: 600, Shards: 12,
-		Desc: "real SelfManaged provider (zeroconf replaced by an inert shim, member-ping ticker fired explicitly) reporting to a stub agent, outbound messages captured by a pool Remoter: all sequences of <=3 events out of 12 (handshake from B/C/D, member lists [B] [C,D] [A,B,C] [B,B], unreachable report for B/C/D/a non-member address, ticker): member set, reports to the agent, handshake reply, ping targets, no provider restart",
+	Register(&Job{Name: "C20/provider/event-histories-3", Prop: "C20", Bound: 0, BoundT: 1, Budget: 50, BudgetT: 600, Shards: 13,
+		Desc: "real SelfManaged provider (zeroconf replaced by an inert shim, member-ping ticker fired explicitly) reporting to a stub agent, outbound messages captured by a pool Remoter: all sequences of <=3 events out of 13 (handshake from B/C/D, member lists [B] [C,D] [A,B,C] [B,B], unreachable report for B/C/D/a non-member address, B and C reported unreachable back to back, ticker): member set, reports to the agent, handshake reply, ping targets, no provider restart",
 		Make: func() vsched.Instance { return engProvider(3) }})
-	Register(&Job{Name: "C20/provider/event-histories-4", Prop: "C20", Bound: 0, BoundT: 0, Budget: 50, BudgetT: 900, Shards: 12,
-		Desc: "all sequences of <=4 events out of 12 (22620 histories)", Make: func() vsched.Instance { return engProvider(4) }})
-	Register(&Job{Name: "C20/provider/event-histories-5", Prop: "C20", Tier: "thorough", Bound: 0, BoundT: 0, Budget: 50, BudgetT: 1200, Shards: 12,
-		Desc: "all sequences of <=5 events out of 12 (271452 histories)", Make: func() vsched.Instance { return engProvider(5) }})
+	Register(&Job{Name: "C20/provider/event-histories-4", Prop: "C20", Bound: 0, BoundT: 0, Budget: 50, BudgetT: 900, Shards: 13,
+		Desc: "all sequences of <=4 events out of 13 (30940 histories)", Make: func() vsched.Instance { return engProvider(4) }})
+	Register(&Job{Name: "C20/provider/event-histories-5", Prop: "C20", Tier: "thorough", Bound: 0, BoundT: 0, Budget: 50, BudgetT: 1200, Shards: 13,
+		Desc: "all sequences of <=5 events out of 13 (402233 histories)", Make: func() vsched.Instance { return engProvider(5) }})
 }
 
 // ------------------------------------------------------------------ C19 activations
